@@ -15,7 +15,7 @@ import (
 func init() {
 	register(&PropSpec{
 		ID:       "C20",
-		Patterns: []string{"./pkg/configmanager", "./pkg/admin/server", "./pkg/config/v2"},
+		Patterns: []string{"./pkg/configmanager", "./pkg/admin/server", "./pkg/config/v2", "./istio/istio1106/xds/conv"},
 		Explanation: "(R1) type-graph coverage: for every value that can reach the admin surface (the argument of json.Marshal in DumpJSON, every arm of getMOSNConfigRedacted) all access paths in the Go type graph from its static type to a v2.TLSConfig (through struct fields whatever their json tag, pointers, slices, arrays, map values) are enumerated; from the SSA of the redactor functions an access-path summary of where redactTLSConfig is applied is computed (interprocedural, loops abstracted to [*] only for full range loops); every enumerated path must be covered, or be discharged by a verified cleared-by-construction fact (every whole-struct store to conf.MosnConfig is followed by a store of a fresh ClusterManager literal that leaves the cluster lists empty). " +
 			"(R2) redactTLSConfig stores the single placeholder constant into PrivateKey whenever it is non-empty. " +
 			"(R3) freshness: every store performed by the redactors targets memory allocated in the same call (local copies, slices re-made with make+copy before element writes, pointer targets replaced by the address of a local copy, new maps). " +
